@@ -82,7 +82,8 @@ def _z3_child(smt, timeout_s, want_model=True):
     if not os.path.exists(exe):
         exe = "z3-new"
     try:
-        p = subprocess.run([exe, "-T:%d" % max(1, int(timeout_s)), f.name], capture_output=True, text=True, timeout=timeout_s + 10)
+        p = subprocess.run([exe, "-t:%d" % int(timeout_s * 1000), "-T:%d" % (int(timeout_s) + 2), f.name], capture_output=True, text=True,
+                           timeout=timeout_s + 10)
         out = p.stdout
     except (subprocess.TimeoutExpired, OSError):
         out = ""
@@ -127,6 +128,10 @@ def _rewrite_unit_inv(text):
         text = text[:i] + "(seq.nth " + arg + " 0)" + text[end + 1:]
 
 
+def _dump_text(text):
+    return "(set-logic ALL)\n" + _rewrite_unit_inv(text.replace("seq.nth_i", "seq.nth").replace("seq.nth_u", "seq.nth"))
+
+
 def _dump(solver):
     # z3 prints two internal variants of seq.nth (in-bounds / underspecified); both are SMT-LIB seq.nth
     return "(set-logic ALL)\n" + _rewrite_unit_inv(solver.to_smt2().replace("seq.nth_i", "seq.nth").replace("seq.nth_u", "seq.nth"))
@@ -164,42 +169,29 @@ def check_valid(assumptions, goal, lemmas=(), timeout_ms=None, want_model=True, 
             s.add(f)
         return s, _dump(s), ground
 
-    def certificate(s, ground):
+    def certificate(smt):
         """quantifier-free version of a query z3 has refuted: the ground part + the lemma instances of z3's refutation.
-        The query is re-run in a separate proof-producing z3 context; the `quant-inst` steps of the proof are the instances.
-        cvc5 then re-checks the certificate without trusting z3's reasoning (DESIGN appendix B)."""
+        The query is re-run in a separate proof-producing z3 process (pyvc/cert_child.py, killable); the `quant-inst` steps of
+        the proof are the instances.  cvc5 then re-checks the certificate without trusting z3's reasoning (DESIGN appendix B)."""
         if not lem:
             return None
+        f = tempfile.NamedTemporaryFile("w", suffix=".smt2", delete=False, dir=os.environ.get("PYVC_TMP"))
+        f.write(smt)
+        f.close()
         try:
-            pctx = z3.Context(proof=True)
-            ps = z3.Solver(ctx=pctx)
-            ps.set("timeout", 30000)
-            for f in ground + lem:
-                ps.add(f.translate(pctx))
-            if ps.check() != z3.unsat:
-                return None
-            gi = []
-            seen, stack = set(), [ps.proof()]
-            while stack:
-                e = stack.pop()
-                if e.get_id() in seen:
-                    continue
-                seen.add(e.get_id())
-                if z3.is_app(e):
-                    if e.decl().kind() == z3.Z3_OP_PR_QUANT_INST and e.num_args():
-                        f = e.children()[-1]
-                        if z3.is_or(f):
-                            gi.extend(c for c in f.children() if not (z3.is_not(c) and z3.is_quantifier(c.arg(0))))
-                    stack.extend(e.children())
-            main = z3.main_ctx()
-            sg = z3.Solver()
-            for f in ground:
-                sg.add(f)
-            for f in gi:
-                sg.add(f.translate(main))
-            return _dump(sg)
-        except Exception:
+            p = subprocess.run([sys.executable, os.path.join(os.path.dirname(os.path.abspath(__file__)), "cert_child.py"), f.name, "30000"],
+                               capture_output=True, text=True, timeout=45)
+            out = p.stdout
+        except (subprocess.TimeoutExpired, OSError):
             return None
+        finally:
+            try:
+                os.unlink(f.name)
+            except OSError:
+                pass
+        if not out.startswith("CERT\n"):
+            return None
+        return _dump_text(out[5:])
 
     queries = {}
     s1, smt1, ground1 = build(1)
@@ -215,7 +207,11 @@ def check_valid(assumptions, goal, lemmas=(), timeout_ms=None, want_model=True, 
         if fuel not in queries:
             queries[fuel] = build(fuel)
         s, smt, ground = queries[fuel]
-        rz = s.check()
+        if has_seq:
+            # in a killable child: z3's sequence solver can ignore its own timeout (seen on integer-sequence lemmas)
+            rz = {"unsat": z3.unsat, "sat": z3.sat}.get(_z3_child(smt, min(timeout_ms, fuel_timeout_ms) / 1000.0, False)[0], z3.unknown)
+        else:
+            rz = s.check()
         last = "z3:%s (fuel %d)" % (rz, fuel)
         if rz == z3.unsat:
             z_fuel = fuel
@@ -234,7 +230,7 @@ def check_valid(assumptions, goal, lemmas=(), timeout_ms=None, want_model=True, 
                 if getattr(j, "_res", None) is None:
                     j.abandon()
                 del jobs[f]
-        cert = certificate(queries[z_fuel][0], queries[z_fuel][2]) if has_seq else None
+        cert = certificate(queries[z_fuel][1]) if has_seq else None
         orig_job = None
         cert_smt = cert or queries[z_fuel][1]
         if cert is not None:
@@ -599,7 +595,15 @@ def prove_lemmas(modname):
                     ihs.append(z3.ForAll(qv, body) if qv else body)
                 # nested induction hypotheses for sub-structures named in hints are given as extra instances
                 extra = vars_extra if (isinstance(T, SeqT) or T is STR) else []
-                statuses.append(check_valid(hs1 + ihs + extra, g1, used, want_model=False)["status"])
+                if lem.get("cases"):
+                    # the step is proved once per case (each under its own hypothesis); the cases must be exhaustive
+                    st_cons = State(dict(env))
+                    cs = [truthy(ev.ev_str(c, st_cons)) for c in lem["cases"]]
+                    statuses.append(check_valid(hs1 + extra, z3.Or(*cs), used, want_model=False)["status"])
+                    for c in cs:
+                        statuses.append(check_valid(hs1 + ihs + extra + [c], g1, used, want_model=False)["status"])
+                else:
+                    statuses.append(check_valid(hs1 + ihs + extra, g1, used, want_model=False)["status"])
             ok = all(s == "proved" for s in statuses)
             rec.update(status="proved" if ok else ("refuted" if "refuted" in statuses else "unknown"), parts=statuses)
             if ok:
